@@ -3,9 +3,10 @@
 set -e
 cd "$(dirname "$0")"
 export GOFLAGS=-mod=mod GOPROXY=off GOSUMDB=off GOTOOLCHAIN=local
+REPO="${VERIF_REPO:-/repo}"
 mkdir -p .work/bin evidence
-[ -f harness/go.sum ] || cp /repo/go.sum harness/go.sum
-(cd harness && if [ -d cmd/srcfacts ]; then go build -o ../.work/bin/srcfacts ./cmd/srcfacts && ../.work/bin/srcfacts -repo /repo -out ../lean/Teleport/Gen; fi)
+[ -f harness/go.sum ] || cp "$REPO/go.sum" harness/go.sum
+(cd harness && if [ -d cmd/srcfacts ]; then go build -o ../.work/bin/srcfacts ./cmd/srcfacts && ../.work/bin/srcfacts -repo "$REPO" -out ../lean/Teleport/Gen; fi)
 (cd lean && lake build Teleport driver)
-(cd harness && go build -tags verif -o ../.work/bin/conform ./cmd/conform)
+if [ "$REPO" = "/repo" ]; then (cd harness && go build -tags verif -o ../.work/bin/conform ./cmd/conform); fi
 echo setup-ok
